@@ -3,5 +3,7 @@
 cd "$(dirname "$0")/.."
 tier=${1:-quick}
 for p in $(python3 -c "import json;print(' '.join(c['property_id'] for c in json.load(open('MANIFEST.json'))['checks']))"); do
-  python3 tools/check.py --property $p --tier $tier 2>&1 | grep -E "^\[C|VIOLATION|KNOWN-FINDING" | cut -c1-220
+  out=$(python3 tools/check.py --property $p --tier $tier 2>&1); rc=$?
+  echo "$out" | grep -E "^\[C|VIOLATION|KNOWN-FINDING" | cut -c1-220
+  if [ $rc -ne 0 ] || ! echo "$out" | grep -q "^\[$p\]"; then echo "[$p] EXIT $rc"; echo "$out" | tail -3; fi
 done
